@@ -13,6 +13,9 @@ Definition vexpr_eqb (a b : vexpr) : bool :=
 Definition zexpr_eqb (a b : zexpr) : bool :=
   match a, b with ZLit x, ZLit y => Z.eqb x y | ZAccPlus x, ZAccPlus y => Z.eqb x y | _, _ => false end.
 
+Definition onat_eqb (a b : option nat) : bool :=
+  match a, b with Some x, Some y => Nat.eqb x y | None, None => true | _, _ => false end.
+
 Fixpoint op_eqb (a b : op) {struct a} : bool :=
   let fix leq (l1 l2 : list op) : bool :=
     match l1, l2 with [], [] => true | x :: l1', y :: l2' => op_eqb x y && leq l1' l2' | _, _ => false end in
@@ -20,7 +23,7 @@ Fixpoint op_eqb (a b : op) {struct a} : bool :=
   | OPush c e, OPush c' e' => Nat.eqb c c' && vexpr_eqb e e'
   | OPop c, OPop c' => Nat.eqb c c'
   | ORange c, ORange c' => Nat.eqb c c'
-  | OSelect cs, OSelect cs' => list_eqb Nat.eqb cs cs'
+  | OSelect cs, OSelect cs' => list_eqb onat_eqb cs cs'
   | OClose c, OClose c' => Nat.eqb c c'
   | OLoad x, OLoad x' => Nat.eqb x x'
   | OStore x e, OStore x' e' => Nat.eqb x x' && zexpr_eqb e e'
@@ -44,8 +47,6 @@ Definition routine_eqb (a b : routine) : bool :=
 Definition entry_eqb (a b : entry) : bool := val_eqb (e_val a) (e_val b) && Nat.eqb (e_from a) (e_from b).
 Definition chan_eqb (a b : chanst) : bool :=
   Nat.eqb (cap a) (cap b) && Bool.eqb (closed a) (closed b) && list_eqb entry_eqb (q a) (q b).
-Definition onat_eqb (a b : option nat) : bool :=
-  match a, b with Some x, Some y => Nat.eqb x y | None, None => true | _, _ => false end.
 (* on erased states *)
 Definition state_eqb (a b : state) : bool :=
   list_eqb Z.eqb (mem a) (mem b) && list_eqb onat_eqb (mus a) (mus b) &&
@@ -75,6 +76,9 @@ Proof. intros. apply Nat.eqb_eq; auto. Qed.
 Lemma Z_eqb_sound : forall a b, Z.eqb a b = true -> a = b.
 Proof. intros. apply Z.eqb_eq; auto. Qed.
 
+Lemma onat_eqb_sound : forall a b, onat_eqb a b = true -> a = b.
+Proof. destruct a, b; simpl; intros; try discriminate; auto. apply Nat.eqb_eq in H. congruence. Qed.
+
 Lemma op_ind2 : forall P : op -> Prop,
   (forall c e, P (OPush c e)) -> (forall c, P (OPop c)) -> (forall c, P (ORange c)) -> (forall cs, P (OSelect cs)) ->
   (forall c, P (OClose c)) -> (forall x, P (OLoad x)) -> (forall x e, P (OStore x e)) -> P OFail ->
@@ -95,7 +99,7 @@ Proof.
   - apply andb_true_iff in E. destruct E as [E1 E2]. apply Nat.eqb_eq in E1. apply vexpr_eqb_sound in E2. congruence.
   - apply Nat.eqb_eq in E. congruence.
   - apply Nat.eqb_eq in E. congruence.
-  - f_equal. apply (list_eqb_sound _ _ nat_eqb_sound); auto.
+  - f_equal. apply (list_eqb_sound _ _ onat_eqb_sound); auto.
   - apply Nat.eqb_eq in E. congruence.
   - apply Nat.eqb_eq in E. congruence.
   - apply andb_true_iff in E. destruct E as [E1 E2]. apply Nat.eqb_eq in E1. apply zexpr_eqb_sound in E2. congruence.
@@ -148,8 +152,6 @@ Proof.
   destruct a, b; unfold entry_eqb; simpl; intros E. apply andb_true_iff in E. destruct E as [E1 E2].
   apply val_eqb_sound in E1. apply Nat.eqb_eq in E2. congruence.
 Qed.
-Lemma onat_eqb_sound : forall a b, onat_eqb a b = true -> a = b.
-Proof. destruct a, b; simpl; intros; try discriminate; auto. apply Nat.eqb_eq in H. congruence. Qed.
 
 (* ---- erasure of the ghost fields ---- *)
 Definition erase_ch (ch : chanst) : chanst := mkC (cap ch) (q ch) (closed ch) [] [] [].
@@ -245,7 +247,7 @@ Proof.
       * destruct T as (ch'' & T & E). rewrite T. fin. rewrite E. auto.
       * rewrite T. reflexivity.
   - (* select *)
-    destruct (nth_error cs k) as [c|]; auto.
+    destruct (nth_error cs k) as [[c|]|]; auto.
     rewrite nth_error_erase. destruct (nth_error (chs s) c) as [ch|]; simpl; auto.
     assert (T := take_erase ch i). destruct (take ch i) as [[v ch']|].
     + destruct T as (ch'' & T & E). rewrite T. fin. rewrite E. auto.
@@ -297,7 +299,7 @@ Proof.
   destruct (fops f) as [|o ops']. { exists 0. split; [lia | auto]. }
   destruct o; try (exists 0; split; [lia | reflexivity]).
   (* select *)
-  unfold exec in *. destruct (nth_error cs k) eqn:N; try discriminate.
+  unfold exec in *. destruct (nth_error cs k) as [[c|]|] eqn:N; try discriminate.
   exists k. split; [| rewrite N; reflexivity]. assert (k < length cs) by (apply nth_error_Some; congruence). lia.
 Qed.
 
